@@ -202,14 +202,128 @@ class IntervalFlow:
             return None      # infeasible
         return self.put(st, lv, lo, hi)
 
+    # -- conditions that are not a single comparison: `!`, `&&`, `||`, and
+    # calls of expression-bodied in-file predicates (a range check extracted
+    # into `static int in_range(int i, int n) { return i >= 0 && i < n; }`)
+
+    def _subst(self, e, subst):
+        e = strip(e)
+        if subst and e is not None and e.kind == "DeclRefExpr" \
+                and e.ref in subst:
+            return strip(subst[e.ref])
+        return e
+
+    def refine_all(self, e, truth, st, subst=None, depth=0):
+        """list of refined states (a disjunction) for `e` being `truth`"""
+        e = strip(e)
+        if e is None or depth > 6:
+            return [st]
+        if e.kind == "UnaryOperator" and e.op == "!":
+            return self.refine_all(e.ch[0], not truth, st, subst, depth + 1)
+        if e.kind == "BinaryOperator" and e.op in ("&&", "||"):
+            conj = (e.op == "&&") == truth
+            if conj:
+                outs = []
+                for s1 in self.refine_all(e.ch[0], truth, st, subst,
+                                          depth + 1):
+                    outs += self.refine_all(e.ch[1], truth, s1, subst,
+                                            depth + 1)
+                return outs
+            return (self.refine_all(e.ch[0], truth, st, subst, depth + 1)
+                    + self.refine_all(e.ch[1], truth, st, subst, depth + 1))
+        if e.kind == "CallExpr":
+            c = callee(e)
+            if self.facts.has_func(c):
+                fn = self.facts.func(c)
+                params = [q.name for q in self.facts.params(c)]
+                small = not any(x.kind in ("ForStmt", "WhileStmt", "DoStmt",
+                                           "SwitchStmt", "GotoStmt",
+                                           "CallExpr")
+                                for x in fn.walk())
+                assigns = any(x.kind in ("CompoundAssignOperator",)
+                              or (x.kind == "BinaryOperator" and x.op == "=")
+                              or (x.kind == "UnaryOperator"
+                                  and x.op in ("++", "--"))
+                              for x in fn.walk())
+                if small and not assigns and len(params) == len(e.ch) - 1:
+                    # a side-effect-free predicate: follow each of its paths
+                    from ..ccfg import build_ccfg
+                    g = self._helper_cfgs.setdefault(c, build_ccfg(fn)) \
+                        if hasattr(self, "_helper_cfgs") else build_ccfg(fn)
+                    sub = {p: (self._subst(a, subst))
+                           for p, a in zip(params, e.ch[1:])}
+                    outs = []
+                    for path in cfgmod.enumerate_paths(g, max_paths=64):
+                        states = [st]
+                        for nid, lab in path:
+                            nd = g.nodes[nid]
+                            if nd.kind == "cond" and lab in ("T", "F"):
+                                nxt = []
+                                for s1 in states:
+                                    nxt += self.refine_all(
+                                        nd.ast, lab == "T", s1, sub,
+                                        depth + 1)
+                                states = nxt
+                            elif nd.kind == "return" and nd.ast is not None \
+                                    and nd.ast.ch:
+                                rv = nd.ast.ch[0]
+                                k = int_value(rv)
+                                nxt = []
+                                for s1 in states:
+                                    if k is not None:
+                                        if (k != 0) == truth:
+                                            nxt.append(s1)
+                                    else:
+                                        nxt += self.refine_all(
+                                            rv, truth, s1, sub, depth + 1)
+                                states = nxt
+                        outs += states
+                    return outs
+            return [st]
+        if e.kind == "BinaryOperator" and e.op in ("<", "<=", ">", ">=",
+                                                   "==", "!="):
+            if subst:
+                # compare with parameters replaced by the call's arguments
+                l, r = self._subst(e.ch[0], subst), self._subst(e.ch[1], subst)
+                r2 = self._refine_cmp(l, e.op, r, truth, st)
+            else:
+                r2 = self.refine(e, truth, st)
+            return [] if r2 is None else [r2]
+        return [st]
+
+    def _refine_cmp(self, l, op, r, truth, st):
+        lv, rv = var(l), self.const_int(r)
+        if lv is None or rv is None:
+            lv, rv = var(r), self.const_int(l)
+            if lv is None or rv is None:
+                return st
+            op = {"<": ">", "<=": ">=", ">": "<", ">=": "<=",
+                  "==": "==", "!=": "!="}[op]
+        if not truth:
+            op = {"<": ">=", "<=": ">", ">": "<=", ">=": "<",
+                  "==": "!=", "!=": "=="}[op]
+        lo, hi = self.get(st, lv)
+        if op == "<":
+            hi = min(hi, rv - 1)
+        elif op == "<=":
+            hi = min(hi, rv)
+        elif op == ">":
+            lo = max(lo, rv + 1)
+        elif op == ">=":
+            lo = max(lo, rv)
+        elif op == "==":
+            lo, hi = max(lo, rv), min(hi, rv)
+        if lo > hi:
+            return None
+        return self.put(st, lv, lo, hi)
+
     def transfer(self, node, st):
         self.check_subscripts(node, st)
         if node.kind == "cond":
             st2 = self.kill_assigned(node, st)
             outs = []
             for lab in ("T", "F"):
-                r = self.refine(node.ast, lab == "T", st2)
-                if r is not None:
+                for r in self.refine_all(node.ast, lab == "T", st2):
                     outs.append((lab, r))
             return outs
         if node.kind == "switch":
